@@ -30,6 +30,7 @@ ResetAll ==
 Step(e) ==
   CASE e.ev = "reset"        -> ResetAll
     [] e.ev = "new"          -> NewDispatch(e.d, FilterOfJson(e.f))
+    [] e.ev = "new_none"     -> NewNone(e.d)
     [] e.ev = "drop"         -> DropHandle(e.d)
     [] e.ev = "set_default"  -> SetDefault(e.t, e.d)
     [] e.ev = "unset"        -> Unset(e.t)
@@ -47,6 +48,7 @@ AOk(e) ==
     [] e.ev = "set_global"             -> e.ok = (global = NoD)
     [] e.ev = "panic_scopes"           -> e.panicked
     [] e.ev = "crash"                  -> FALSE
+    [] e.ev = "unset"                  -> ~("panic" \in DOMAIN e)      \* closing a scope never panics
     [] OTHER                           -> TRUE
 \* --- mechanism agreement (drift only) ---
 MOk(e) ==
